@@ -53,17 +53,29 @@ Tag = object
 F, G, I, U = "F", "G", "I", "U"
 
 
-@dataclass(frozen=True)
 class Val:
-    top: FrozenSet = frozenset({F})
-    inner: FrozenSet = frozenset({F})
-    cls: Optional[str] = None
+    """provenance of a value at three depths: the object itself (top), its direct contents - elements / attributes - (inner),
+    and everything reachable below that (deep).  Parameter tags carry the depth at which the parameter is met:
+    ('P', p, 0) the argument object itself, ('P', p, 1) its direct contents, ('P', p, 2) anything deeper."""
+    __slots__ = ("top", "inner", "deep", "cls")
+
+    def __init__(self, top=frozenset({F}), inner=frozenset({F}), cls=None, deep=None):
+        self.top = frozenset(top)
+        self.inner = frozenset(inner)
+        self.deep = frozenset(deep if deep is not None else inner)
+        self.cls = cls
 
     def reach(self):
-        return self.top | self.inner
+        return self.top | self.inner | self.deep
 
     def __or__(self, o):
-        return Val(self.top | o.top, self.inner | o.inner, self.cls if self.cls == o.cls else None)
+        return Val(self.top | o.top, self.inner | o.inner, self.cls if self.cls == o.cls else None, self.deep | o.deep)
+
+    def elem(self):
+        return Val(self.inner, self.deep, None, self.deep)
+
+    def __repr__(self):
+        return f"Val({sorted(map(str, self.top))}, {sorted(map(str, self.inner))}, {sorted(map(str, self.deep))})"
 
 
 FRESH = Val()
@@ -73,12 +85,26 @@ GLOB = Val(frozenset({G}), frozenset({G}))
 
 
 def P(name):
-    return Val(frozenset({("P", name)}), frozenset({("P", name)}))
+    return Val(frozenset({("P", name, 0)}), frozenset({("P", name, 1)}), None, frozenset({("P", name, 2)}))
 
 
-def fresh_with(inner):
-    inner = frozenset(t for t in inner if t != I)
-    return Val(frozenset({F}), inner or frozenset({F}))
+def _noimm(ts):
+    return frozenset(t for t in ts if t != I)
+
+
+def box(vals, top=F):
+    """a fresh container (list / dict / object) directly holding the given values"""
+    inner, deep = set(), set()
+    for v in vals:
+        inner |= _noimm(v.top)
+        deep |= _noimm(v.inner | v.deep)
+    return Val(frozenset({top}), frozenset(inner) or frozenset({F}), None, frozenset(deep) or frozenset({F}))
+
+
+def fresh_with(reach):
+    """a fresh object that may hold / reach the given tags (conservative: at both content depths)"""
+    reach = _noimm(reach)
+    return Val(frozenset({F}), reach or frozenset({F}), None, reach or frozenset({F}))
 
 
 @dataclass
@@ -270,23 +296,21 @@ class Repo:
 
 
 def _subst(v: Val, binding: Dict[str, Val]) -> Val:
-    """replace ('P', name) tags of a callee summary by the actual argument values"""
-    top, inner = set(), set()
-    for t in v.top:
-        if isinstance(t, tuple):
-            a = binding.get(t[1], UNK)
-            top |= a.top
-            inner |= a.inner
-        else:
-            top.add(t)
-    for t in v.inner:
-        if isinstance(t, tuple):
-            a = binding.get(t[1], UNK)
-            inner |= a.top | a.inner
-        else:
-            inner.add(t)
-    inner.discard(I) if len(inner) > 1 else None
-    return Val(frozenset(top), frozenset(inner), v.cls)
+    """replace ('P', name, depth) tags of a callee summary by the provenance of the actual argument at that depth"""
+    def level(tags):
+        out = set()
+        for t in tags:
+            if isinstance(t, tuple):
+                a = binding.get(t[1], UNK)
+                out |= (a.top, a.inner, a.deep)[min(t[2], 2)]
+                if t[2] >= 2:
+                    out |= a.deep
+            else:
+                out.add(t)
+        return out
+    top, inner, deep = level(v.top), level(v.inner), level(v.deep)
+    deep |= set()
+    return Val(frozenset(top), frozenset(_noimm(inner)) or frozenset({F}), v.cls, frozenset(_noimm(deep)) or frozenset({F}))
 
 
 class _Analysis:
@@ -319,14 +343,14 @@ class _Analysis:
         for i, n in enumerate(names):
             v = P(n)
             if i == 0 and self.cls and not is_static and n in ("self", "cls"):
-                v = Val(v.top, v.inner, self.cls)
+                v = Val(v.top, v.inner, self.cls, v.deep)
             else:
                 ann = None
                 for x in a.posonlyargs + a.args + a.kwonlyargs:
                     if x.arg == n and x.annotation is not None:
                         ann = ast.unparse(x.annotation).strip('"').split(".")[-1]
                 if ann in self.repo.classes:
-                    v = Val(v.top, v.inner, ann)
+                    v = Val(v.top, v.inner, ann, v.deep)
             self.env[n] = v
         for node in ast.walk(self.fn):
             if isinstance(node, ast.Global):
@@ -385,7 +409,7 @@ class _Analysis:
         elif isinstance(st, (ast.For, ast.AsyncFor)):
             it = self.expr(st.iter)
             for _ in range(2):
-                self.assign(st.target, Val(it.inner, it.inner), st)
+                self.assign(st.target, it.elem(), st)
                 before = dict(self.env)
                 self.block(st.body)
                 self.merge(before)
@@ -401,7 +425,7 @@ class _Analysis:
             for it in st.items:
                 v = self.expr(it.context_expr)
                 if it.optional_vars is not None:
-                    self.assign(it.optional_vars, Val(v.top | {F}, v.inner), st)
+                    self.assign(it.optional_vars, Val(v.top | {F}, v.inner, None, v.deep), st)
             self.block(st.body)
         elif isinstance(st, ast.Try):
             self.block(st.body)
@@ -432,21 +456,35 @@ class _Analysis:
                 self.s.global_writes.append(Finding("global-write", self.where(st), ast.unparse(st)[:160], t.id))
             self.env[t.id] = v
         elif isinstance(t, (ast.Tuple, ast.List)):
-            ev = Val(v.inner, v.inner)
+            ev = v.elem()
             for e in t.elts:
-                self.assign(e.value if isinstance(e, ast.Starred) else e, ev if not isinstance(e, ast.Starred) else fresh_with(v.inner), st)
+                self.assign(e.value if isinstance(e, ast.Starred) else e, ev if not isinstance(e, ast.Starred) else Val(frozenset({F}), v.inner, None, v.deep), st)
         elif isinstance(t, ast.Attribute):
             self.mutation(self.expr(t.value), st, f"attribute assignment .{t.attr}", attr=t.attr)
+            self.absorb(t.value, v)
         elif isinstance(t, ast.Subscript):
             self.expr(t.slice)
             self.mutation(self.expr(t.value), st, "item assignment")
+            self.absorb(t.value, v)
+
+    def absorb(self, container_expr, stored: Val):
+        """a value was stored into a local container / object: whatever it reaches is now reachable through the container"""
+        root = container_expr
+        while isinstance(root, (ast.Subscript, ast.Attribute)):
+            root = root.value
+        if isinstance(root, ast.Name) and root.id in self.env:
+            cur_ = self.env[root.id]
+            direct = container_expr is root
+            inner = cur_.inner | (_noimm(stored.top) if direct else frozenset())
+            deep = cur_.deep | _noimm(stored.inner | stored.deep) | (frozenset() if direct else _noimm(stored.top))
+            self.env[root.id] = Val(cur_.top, inner, cur_.cls, deep)
 
     def mutation(self, target: Val, node, why, attr=None):
         text = ast.unparse(node)[:160]
         done = False
         for tag in target.top:
             if isinstance(tag, tuple):
-                self.s.mutates.setdefault(tag[1], []).append(Finding("param-write", self.where(node), f"{why}: {text}", tag[1] + (f".{attr}" if attr else "")))
+                self.s.mutates.setdefault(tag[1], []).append(Finding("param-write", self.where(node), f"{why}: {text}", tag[1] + (f".{attr}" if attr and tag[2] == 0 else "")))
                 done = True
             elif tag == G:
                 self.s.global_writes.append(Finding("global-write", self.where(node), f"{why}: {text}", "module state"))
@@ -493,17 +531,17 @@ class _Analysis:
         v = self.expr(e.value)
         if isinstance(e.value, ast.Name) and e.value.id in LIB_ROOTS and e.value.id not in self.env:
             return IMM
-        if e.attr in self.repo.scalar_attrs or e.attr in ("real", "imag") and False:
+        if e.attr in self.repo.scalar_attrs:
             return IMM
-        return Val(v.inner, v.inner)
+        return v.elem()
 
     def e_Subscript(self, e):
         v = self.expr(e.value)
         self.expr(e.slice)
         if isinstance(e.slice, ast.Slice):
             # slicing a list copies the container (elements shared); numpy slices are views: keep both
-            return Val(v.top | {F}, v.inner)
-        return Val(v.inner, v.inner)
+            return Val(v.top | {F}, v.inner, None, v.deep)
+        return v.elem()
 
     def e_Slice(self, e):
         for x in (e.lower, e.upper, e.step):
@@ -513,13 +551,13 @@ class _Analysis:
     def e_Starred(self, e): return self.expr(e.value)
 
     def _coll(self, elts):
-        inner = set()
+        vals = []
         for x in elts:
             if x is None:
                 continue
             v = self.expr(x)
-            inner |= v.top | v.inner if not isinstance(x, ast.Starred) else v.inner
-        return fresh_with(inner)
+            vals.append(v.elem() if isinstance(x, ast.Starred) else v)
+        return box(vals)
 
     def e_List(self, e): return self._coll(e.elts)
     def e_Set(self, e): return self._coll(e.elts)
@@ -527,13 +565,13 @@ class _Analysis:
 
     def e_Tuple(self, e):
         v = self._coll(e.elts)
-        return Val(frozenset({I}), v.inner)
+        return Val(frozenset({I}), v.inner, None, v.deep)
 
     def _comp(self, e, elts):
         saved = dict(self.env)
         for g in e.generators:
             it = self.expr(g.iter)
-            self.assign(g.target, Val(it.inner, it.inner), e)
+            self.assign(g.target, it.elem(), e)
             for c in g.ifs:
                 self.expr(c)
         v = self._coll(elts)
@@ -547,7 +585,7 @@ class _Analysis:
 
     def e_BinOp(self, e):
         a, b = self.expr(e.left), self.expr(e.right)
-        return fresh_with(a.inner | b.inner)
+        return Val(frozenset({F}), _noimm(a.inner | b.inner) or frozenset({F}), None, _noimm(a.deep | b.deep) or frozenset({F}))
 
     def e_UnaryOp(self, e):
         self.expr(e.operand)
@@ -601,11 +639,11 @@ class _Analysis:
                     top = set()
                     for v in allv:
                         top |= v.top
-                    return Val(frozenset(top | {F}), frozenset(reach | {F}))
+                    return Val(frozenset(top | {F}), frozenset(_noimm(reach) | {F}))
                 if f.attr in ("deepcopy",):
                     return FRESH
                 if f.attr in ("copy",):
-                    return fresh_with(set().union(*[v.inner for v in allv]) if allv else set())
+                    return Val(frozenset({F}), allv[0].inner, None, allv[0].deep) if allv else FRESH
                 if f.attr in ("dump", "dumps", "write"):
                     return IMM
                 return fresh_with(reach - {I} if f.attr in ("array", "kron", "concatenate", "stack", "vstack", "hstack") and False else set())
@@ -623,7 +661,9 @@ class _Analysis:
             if f.attr in MUTATORS:
                 if not (recv.top <= {I}):
                     self.mutation(recv, e, f"call of mutating method .{f.attr}()")
-                return Val(recv.inner, recv.inner)
+                for a_ in allv:
+                    self.absorb(f.value, a_)
+                return recv.elem()
             # repository method?
             keys = []
             if recv.cls:
@@ -639,10 +679,12 @@ class _Analysis:
                     v = v | o
                 return v
             if f.attr in ("copy",):
-                return fresh_with(recv.inner)
+                return Val(frozenset({F}), recv.inner, None, recv.deep)
             if f.attr in VIEW_METHODS:
-                return Val(recv.top | {F}, recv.inner)
-            return fresh_with(recv.inner | reach)
+                return Val(recv.top | {F}, recv.inner, None, recv.deep)
+            if f.attr in ("get", "pop", "setdefault", "__getitem__", "most_common", "elements"):
+                return recv.elem() | (allv[-1] if allv else IMM)
+            return Val(frozenset({F}), _noimm(recv.inner | reach) or frozenset({F}), None, _noimm(recv.deep | reach) or frozenset({F}))
         # ---- plain call
         if isinstance(f, ast.Name):
             n = f.id
@@ -652,10 +694,14 @@ class _Analysis:
                 return FRESH
             if n in FRESH_BUILTINS:
                 top = {I} if n in ("tuple", "frozenset") else {F}
-                inner = set()
+                inner, deep = set(), set()
                 for v in allv:
                     inner |= v.inner
-                return Val(frozenset(top), frozenset(inner or {F}))
+                    deep |= v.deep
+                if n in ("zip", "enumerate", "map", "filter"):
+                    deep |= inner   # elements are fresh tuples holding the original elements
+                    return Val(frozenset(top), frozenset({F}), None, frozenset(_noimm(deep)) or frozenset({F}))
+                return Val(frozenset(top), frozenset(_noimm(inner)) or frozenset({F}), None, frozenset(_noimm(deep)) or frozenset({F}))
             if n in ("reduce", "chain", "islice", "product", "groupby", "getattr", "cast", "replace"):
                 top = set()
                 for v in allv:
@@ -720,7 +766,7 @@ class _Analysis:
                 if p in binding:
                     self.mutation(binding[p], node, f"constructor {cls} mutates its argument '{p}'")
             # what the new object holds: everything __init__ stored into self
-            stored = set()
+            stored_top, stored_deep = set(), set()
             init = self.repo.funcs[key]
             an = _Analysis(self.repo, key)
             an.run()
@@ -730,10 +776,11 @@ class _Analysis:
                         if isinstance(t, ast.Attribute) and isinstance(t.value, ast.Name) and t.value.id == "self":
                             # re-evaluate the stored expression in the finished environment (flow-insensitive, conservative)
                             v = an.expr(st.value)
-                            stored |= v.top | v.inner
-            held = _subst(Val(frozenset({F}), frozenset(stored or {F})), binding).inner
-            return Val(frozenset({F}), frozenset(held - {I}) or frozenset({F}), cls)
-        return Val(frozenset({F}), frozenset(reach - {I}) or frozenset({F}), cls)
+                            stored_top |= v.top
+                            stored_deep |= v.inner | v.deep
+            sv = _subst(Val(frozenset({F}), frozenset(stored_top or {F}), None, frozenset(stored_deep or {F})), binding)
+            return Val(frozenset({F}), sv.inner, cls, sv.deep)
+        return Val(frozenset({F}), frozenset(_noimm(reach)) or frozenset({F}), cls)
 
 
 # ------------------------------------------------------------------------------------------------
